@@ -213,6 +213,25 @@ pub fn random_hay(r: &mut StdRng, pats: &Pats, ci: bool, maxlen: usize) -> Vec<u
                     h.push(alpha[r.gen_range(0..alpha.len())]);
                 }
             }
+            5 if !pats.is_empty() && r.gen_bool(0.5) => {
+                // a near miss by insertion (a stray byte inside an occurrence) or by deletion
+                let p = &pats[r.gen_range(0..pats.len())];
+                if p.len() >= 2 {
+                    let k = r.gen_range(1..p.len());
+                    h.extend_from_slice(&p[..k]);
+                    if r.gen_bool(0.6) {
+                        // the stray byte is often the first byte of some pattern
+                        let q = &pats[r.gen_range(0..pats.len())];
+                        let b = if !q.is_empty() && r.gen_bool(0.7) { q[0] } else { alpha[r.gen_range(0..alpha.len())] };
+                        h.push(b);
+                        h.extend_from_slice(&p[k..]);
+                    } else if k + 1 <= p.len() {
+                        h.extend_from_slice(&p[k + 1..]);
+                    }
+                } else {
+                    h.push(alpha[r.gen_range(0..alpha.len())]);
+                }
+            }
             4..=6 => h.push(alpha[r.gen_range(0..alpha.len())]),
             7 => {
                 // neighbours of letters at the folding boundary
@@ -224,6 +243,38 @@ pub fn random_hay(r: &mut StdRng, pats: &Pats, ci: bool, maxlen: usize) -> Vec<u
     }
     h.truncate(len);
     h
+}
+
+/// Haystacks built around pairs (p, q) of patterns where p is a proper prefix of q:
+/// p, then a stray byte (a pattern's first byte / a byte no pattern uses / both), then the
+/// rest of q. Whatever a searcher remembers of p (a state to resume from, a candidate)
+/// must not be continued by the rest of q.
+pub fn stale_hays(r: &mut StdRng, pats: &Pats, maxpairs: usize) -> Vec<Vec<u8>> {
+    let filler = *[b'_', b'~', 0x01].iter().find(|b| !pats.iter().any(|q| q.contains(b))).unwrap_or(&b'_');
+    let mut out = vec![];
+    let mut pairs = 0;
+    for p in pats.iter() {
+        for q in pats.iter() {
+            if !p.is_empty() && q.len() > p.len() && q[..p.len()] == p[..] {
+                let first = pats[r.gen_range(0..pats.len())].first().copied().unwrap_or(filler);
+                for (si, stray) in [vec![first], vec![q[0]], vec![filler], vec![q[0], filler]].iter().enumerate() {
+                    let mut h = vec![filler; (si + pairs) % 3];
+                    h.extend_from_slice(p);
+                    h.extend_from_slice(stray);
+                    h.extend_from_slice(&q[p.len()..]);
+                    // with and without anything after it
+                    out.push(h.clone());
+                    h.extend(vec![filler; 2]);
+                    out.push(h);
+                }
+                pairs += 1;
+                if pairs >= maxpairs {
+                    return out;
+                }
+            }
+        }
+    }
+    out
 }
 
 /// all haystacks over alpha up to maxlen
